@@ -28,8 +28,44 @@ def history_part(ctx):
     return recs, out, n
 
 
+def reorder_differential(rng, n):
+    """the REAL reorder loop of WorkerPool.imap (imap_unordered replaced by a given arrival order) against the Coq model"""
+    import json, os, subprocess
+    from lib.common import coq_eval, WORK, REPO, VERIF, PY
+    cases = []
+    for _ in range(n):
+        m = rng.choice([0, 1, 2, 5, 9, 14])
+        arr = list(range(m))
+        rng.shuffle(arr)
+        if rng.random() < 0.2:
+            arr = arr[::-1]
+        cases.append(arr)
+    d = os.path.join(WORK, 'c01k')
+    os.makedirs(d, exist_ok=True)
+    json.dump(cases, open(os.path.join(d, 'cases.json'), 'w'))
+    env = dict(os.environ, PYTHONPATH=f"{REPO}:{os.path.join(VERIF, 'harness')}", PYTHONHASHSEED='0')
+    subprocess.run([PY, os.path.join(VERIF, 'harness', 'c01_impl.py'), os.path.join(d, 'cases.json'), os.path.join(d, 'out.json')],
+                   env=env, check=True, timeout=120)
+    impl = json.load(open(os.path.join(d, 'out.json')))
+    bodies = ["(imap_yields nat ([" + "; ".join(f"({i}, {i * 7 + 1})" for i in arr) + "]%nat : list (nat * nat)))" for arr in cases]
+    got = coq_eval('c01k', "From Coq Require Import List ZArith.\nImport ListNotations.\nFrom Mpv Require Import Reorder.\nOpen Scope Z_scope.\n",
+                   bodies, jobs=2)
+    bad = []
+    for arr, r, g in zip(cases, impl, got):
+        want = "[" + "; ".join(str(x) for x in r) + "]"
+        if g.replace(' ', '').replace('%nat', '') != want.replace(' ', ''):
+            bad.append(dict(arrival=arr, implementation=r, model=g))
+    return len(cases), bad
+
+
 def run(ctx):
     res = c02.run_generic(ctx, 'C01', ('map', 'map_unordered', 'imap', 'imap_unordered'))
+    nk, kbad = reorder_differential(random.Random(ctx['seed'] + 1001), 150 if ctx['tier'] == 'quick' else 1500)
+    res['coverage']['reorder_cases'] = nk
+    res['coverage']['evaluations'] += nk
+    if kbad:
+        res['violations'].append(dict(found_input=True, what=f"imap reorder loop differs from the model: {str(kbad[0])[:300]}",
+                                      signature='C01:reorder', replay=dict(kind='scenario', reorder=kbad[0], scenario={})))
     recs, bad, n = history_part(ctx)
     for rec, msg in bad[:2]:
         again = runner.run_many([rec['scenario']] * 2, 'c01_hist_re', jobs=2)
